@@ -1390,15 +1390,15 @@ def run(ctx):
     corpus = load_corpus()
     tree_cases = [c for c in corpus if c.get("kind") == "tree"]
     tree_cases += near_collision_cases(ctx.rng)
-    n_valid = ctx.n(110, 900)
-    n_bad = ctx.n(30, 240)
+    n_valid = ctx.n(85, 900)
+    n_bad = ctx.n(22, 240)
     tree_cases += [gen_tree_case(ctx.rng) for _ in range(n_valid)]
     tree_cases += [gen_tree_case(ctx.rng, bad=True) for _ in range(n_bad)]
     t_items = run_tree_stream(ctx, tree_cases)
     surrogate_observation(ctx)
 
     hist_cases = [c for c in corpus if c.get("kind") == "history"] + fixed_histories()
-    hist_cases += [gen_history(ctx.rng) for _ in range(ctx.n(60, 500))]
+    hist_cases += [gen_history(ctx.rng) for _ in range(ctx.n(45, 500))]
     h_items = run_history_stream(ctx, hist_cases)
 
     corpus_dirs = [c["files"] for c in corpus if c.get("kind") == "build"]
